@@ -641,6 +641,55 @@ static void scen_run(void)
                         for (j = 0; j < MAXDS + 4; j++)
                                 CHK(C08, G_vm[i].b[j] == S.vmem[i][j], "storage of a read-only variable changed");
 
+        /* ---- C10: one row of the return-code table per call, from any state (histories of any length) ------------- */
+        {
+                int is_ok_ack = (o->state == CAT_STATE_FLUSH_IO_WRITE_WAIT && o->write_state == CAT_WRITE_STATE_BEFORE && o->write_state_after == CAT_STATE_AFTER_FLUSH_RESET &&
+                                 G_buf[0] == 'O' && G_buf[1] == 'K' && G_buf[2] == 0);
+                int is_err_ack = (o->state == CAT_STATE_FLUSH_IO_WRITE_WAIT && o->write_state == CAT_WRITE_STATE_BEFORE && o->write_state_after == CAT_STATE_AFTER_FLUSH_RESET &&
+                                  G_buf[0] == 'E' && G_buf[1] == 'R' && G_buf[2] == 'R' && G_buf[3] == 'O' && G_buf[4] == 'R' && G_buf[5] == 0);
+                int emits = (o->state == CAT_STATE_FLUSH_IO_WRITE_WAIT && o->write_state == CAT_WRITE_STATE_BEFORE);
+                /* index of the command handler's code: the event handler (if any) consumed hret[0] */
+                unsigned hi = (USTATE == CAT_UNSOLICITED_STATE_READ_LOOP || USTATE == CAT_UNSOLICITED_STATE_TEST_LOOP) ? 1u : 0u;
+                int c = s32(S.hret[hi]);
+                if (STATE == CAT_STATE_WRITE_LOOP || STATE == CAT_STATE_RUN_LOOP) {
+                        CHK(C10, W.hcalls == hi + 1, "a handler loop state invokes its handler exactly once per call");
+                        if (c == CAT_RETURN_STATE_OK || c == CAT_RETURN_STATE_DATA_OK) CHK(C10, is_ok_ack, "write/run handler: OK and DATA_OK finish with OK");
+                        else if (c == CAT_RETURN_STATE_NEXT || c == CAT_RETURN_STATE_DATA_NEXT) CHK(C10, o->state == (cat_state)(STATE) && W.writes == 0, "write/run handler: NEXT and DATA_NEXT re-invoke without emitting");
+                        else if (c == CAT_RETURN_STATE_HOLD) CHK(C10, o->state == CAT_STATE_HOLD, "HOLD suspends the command");
+                        else if (c == CAT_RETURN_STATE_PRINT_CMD_LIST_OK && STATE == CAT_STATE_RUN_LOOP) CHK(C10, o->state == CAT_STATE_PRINT_CMD, "run handler: PRINT_CMD_LIST_OK starts the command list");
+                        else CHK(C10, is_err_ack, "write/run handler: a code that is not valid for the kind finishes with ERROR");
+                }
+                if (STATE == CAT_STATE_READ_LOOP || STATE == CAT_STATE_TEST_LOOP) {
+                        cat_state reformat = (STATE == CAT_STATE_READ_LOOP) ? CAT_STATE_AFTER_FLUSH_FORMAT_READ_ARGS : CAT_STATE_AFTER_FLUSH_FORMAT_TEST_ARGS;
+                        CHK(C10, W.hcalls == hi + 1, "a handler loop state invokes its handler exactly once per call");
+                        if (c == CAT_RETURN_STATE_OK || c == CAT_RETURN_STATE_HOLD_EXIT_OK) CHK(C10, is_ok_ack, "read/test handler: OK finishes at once with OK, no data");
+                        else if (c == CAT_RETURN_STATE_DATA_OK) CHK(C10, emits && o->write_state_after == CAT_STATE_AFTER_FLUSH_OK, "read/test handler: DATA_OK emits the buffer, then OK");
+                        else if (c == CAT_RETURN_STATE_DATA_NEXT) CHK(C10, emits && o->write_state_after == reformat, "read/test handler: DATA_NEXT emits the buffer, then re-formats and re-invokes");
+                        else if (c == CAT_RETURN_STATE_NEXT) CHK(C10, !emits || is_err_ack, "read/test handler: NEXT re-invokes without emitting");
+                        else if (c == CAT_RETURN_STATE_HOLD) CHK(C10, o->state == CAT_STATE_HOLD, "HOLD suspends the command");
+                        else if (c == CAT_RETURN_STATE_PRINT_CMD_LIST_OK && STATE == CAT_STATE_TEST_LOOP) CHK(C10, o->state == CAT_STATE_PRINT_CMD, "test handler: PRINT_CMD_LIST_OK starts the command list");
+                        else CHK(C10, is_err_ack, "read/test handler: ERROR, invalid and unknown codes finish with ERROR");
+                }
+#ifdef UHRET
+                /* the same table for handlers of unsolicited events, except that no result code is ever produced for them */
+                {
+                        struct cat_unsolicited_fsm *u = &o->unsolicited_fsm;
+                        int uc = (UHRET);
+                        int uemits = (u->state == CAT_UNSOLICITED_STATE_FLUSH_IO_WRITE_WAIT && u->write_state == CAT_WRITE_STATE_BEFORE);
+                        cat_unsolicited_state ureformat = (USTATE == CAT_UNSOLICITED_STATE_READ_LOOP) ? CAT_UNSOLICITED_STATE_AFTER_FLUSH_FORMAT_READ_ARGS : CAT_UNSOLICITED_STATE_AFTER_FLUSH_FORMAT_TEST_ARGS;
+                        CHK(C10, W.hcalls >= 1, "an event in a handler loop state invokes its handler");
+                        if (uc == CAT_RETURN_STATE_DATA_OK) CHK(C10, uemits && u->write_state_after == CAT_UNSOLICITED_STATE_AFTER_FLUSH_OK, "event handler: DATA_OK emits the buffer once");
+                        else if (uc == CAT_RETURN_STATE_DATA_NEXT) CHK(C10, uemits && u->write_state_after == ureformat, "event handler: DATA_NEXT emits, re-formats and re-invokes");
+                        else if (uc == CAT_RETURN_STATE_NEXT) CHK(C10, !uemits, "event handler: NEXT re-invokes without emitting");
+                        else CHK(C10, u->state == CAT_UNSOLICITED_STATE_IDLE, "event handler: every other code ends the event without emitting");
+                        if (cmd_never_writes_buffer(STATE))
+                                for (i = 0; i < BUFTOTAL; i++)
+                                        if (i < cc)
+                                                CHK(C10, G_buf[i] == SNAP_buf[i], "no result code is produced for an unsolicited event");
+                }
+#endif
+        }
+
         /* ---- C11: flush discipline --------------------------------------------------------------- */
         CHK(C11, W.writes <= 1, "more than one io->write attempt in one call");
         if (W.writes == 1) {
